@@ -58,6 +58,8 @@ PROPS = {
                 "Stream `trees` (quick 2 000): the same journals spread over 1-6 files (chains, fans, sub-directories, `./` `../` spellings, odd file names and endings, includes first/last/anywhere, "
                 "a member included twice): same bytes as the model and as the same directives in one file, all invariants against the union; two fifths with a member that cannot be loaded "
                 "(dangling include, member gone / a directory / a broken link, cycle, a line that is no directive): must fail with an empty stdout. "
+                "Stream `epochs` (quick 1 500): 1-4 such journals with accounts of their own in one file, each moved centuries into the past / future, stretched (days before 1678 and after 2262) "
+                "or laid across a date where a time representation ends (int64 nanoseconds, int32 seconds, Unix epoch, years 1 / 1000 / 9999), file order not date order. "
                 "Fixed witness journal of the known finding. class = (outcome, feature signature, valuation, transaction-count bucket, size bucket).",
         "assumptions": ["accepted journals with sufficient prices (the command succeeds); transactions are posting pairs (everything the loader builds)"],
         "trusted": ["known finding valuation-account-not-opened: generated valuation accounts are never opened (C16_valuation_account_not_opened)"],
